@@ -282,6 +282,15 @@ func (bc *BlockChain) SetHead(head uint64) error {
 
 	// Rewind the header chain, deleting all block bodies until then
 	delFn := func(hash common.Hash, num uint64) {
+		// Transactions of a removed block are no longer canonical: drop
+		// the lookup entries that point at it before the body goes away
+		if body := GetBodyNoVersion(bc.db, hash, num); body != nil {
+			for _, tx := range body.Transactions {
+				if blockHash, _, _ := GetTxLookupEntry(bc.db, tx.Hash()); blockHash == hash {
+					DeleteTxLookupEntry(bc.db, tx.Hash())
+				}
+			}
+		}
 		DeleteBody(bc.db, hash, num)
 	}
 	bc.hc.SetHead(head, delFn)
